@@ -103,6 +103,29 @@ FIRST = {
     "C19-8": ("missed", "all twins were forks and shared the zygote's hash seed. One job of every scenario now also runs in a real fresh interpreter under another PYTHONHASHSEED; more zoo components per job."),
     "C20-7": ("caught", ""),
     "C20-8": ("missed", "header names were never all digits. Added such names to the referenced files."),
+    # ---- round 5 ----
+    "C04-9": ("missed", "every member scanned the whole file. Added members whose scan selects no line (the group verdict must stay the conjunction)."),
+    "C04-10": ("missed", "no family had an error on the LEFT of a when/do whose right side is fail(). Added family error_lhs_fail."),
+    "C05-9": ("caught", ""),
+    "C05-10": ("missed", "the print clause only asked whether anything was printed. Now at least one message per handled offending line is required."),
+    "C07-9": ("caught", ""),
+    "C07-10": ("caught", ""),
+    "C08-9": ("caught", ""),
+    "C08-10": ("caught", ""),
+    "C09-9": ("caught", ""),
+    "C09-10": ("caught", ""),
+    "C10-9": ("missed", "interleaved callers only covered a generator run that had not been iterated yet, and the other run never used the same instance mid-way. Added part-way progress (0-3 lines) and same-instance runs of the other group."),
+    "C10-10": ("missed", "':last' was only resolved through an idle instance. Added a run of another group over '$g.results.<year>:last.m', also in the very second of the referenced run; C20 replays now include that second too."),
+    "C11-9": ("missed", "no I/O fault inside a registration. Added registrations whose copy into the store is torn by ENOSPC after 0/50/100% of the bytes, retried or not."),
+    "C11-10": ("caught", ""),
+    "C12-9": ("caught", ""),
+    "C12-10": ("missed", "identities were single words. Added several-word identities and ones with '-', '_', '+'."),
+    "C18-9": ("missed", "every abort was raised below Expression.matches/Function.matches and reached CsvPaths as a csvpath exception class. Added kind lasts_exc: a raw exception while last() is evaluated on a blank final line."),
+    "C18-10": ("missed", "no aborting error carried a __cause__. Added kinds exc_chained (simfault raising `from` a cause) and date_raise (date() on an unparsable cell)."),
+    "C19-9": ("missed", "no two jobs differed only by blanks inside a literal. Added whitespace-sibling jobs and literals with blanks."),
+    "C19-10": ("caught", ""),
+    "C20-9": ("missed", "chains had the mode on a pure suffix. Added mixed chains (a member without the mode after one with it)."),
+    "C20-10": ("missed", "references never named a stack variable nor a variable two members set. Added both (the latter against the manager's merged view)."),
 }
 
 
